@@ -10,8 +10,11 @@ SPEC = {
     "level_text": (
         "Partial, with the full statement refuted by witnesses. Full statement (a program over X gives the same globals "
         "whether X is defined in the file or imported through subinclude) is refuted on the asp model by three "
-        "machine-checked witnesses (== on a list and on a dict, a builtin asserting pyList, a type switch; each states "
-        "which run succeeds and with what error the other fails), each a listed known finding. Proved "
+        "machine-checked witnesses (== on a list and on a dict, a type switch; each states which run succeeds and with "
+        "what error the other fails), each a listed known finding; the third root cause (native builtins asserting "
+        "args[i].(pyList)) was repaired in /repo: its witness is kept at the old table (C18_old_builtin_asserts_pylist), "
+        "the same program is transparent today, and every list builtin of the model gives the same computation on the "
+        "frozen wrapper as on the plain list for all heaps and slices (C18_builtins_transparent). Proved "
         "for all states and arguments: index, in, len, iteration, + with the frozen list on the left, list * int, and the "
         "dict operations index / in / len / | (left) do not look at the frozen wrapper (pinned by the regenerated facts "
         "that pyFrozenList embeds pyList and redefines only IndexAssign / MarshalJSON); + with the frozen list on the "
